@@ -227,6 +227,41 @@ def r2(F, R):
                 R.ok("C19-R2", key, "%s @%s" % (x.path, loc(t["span"])), "serde_json::to_value(settings parameter of new_trace)%s" % how)
             else:
                 R.bad("C19-R2", key, "%s @%s" % (x.path, loc(t["span"])), "serialised value is not new_trace's settings parameter: %s" % how)
+        # the serialised value is stored as it is: nothing takes a mutable reference to it or writes into it on its way into the attribute map
+        for x, t in tv:
+            res = t["dest"]["l"]
+            fam = {res}
+            changed = True
+            while changed:
+                changed = False
+                for blk in x.blocks:
+                    for st in blk["stmts"]:
+                        if st["k"] == "assign" and not st["pl"]["p"] and st["pl"]["l"] not in fam:
+                            rv = st["rv"]
+                            if rv["k"] == "use" and rv["op"]["k"] in ("copy", "move") and rv["op"]["pl"]["l"] in fam:
+                                fam.add(st["pl"]["l"])
+                                changed = True
+                    tt = blk["term"]
+                    if tt["k"] == "call" and not tt["dest"]["p"] and tt["dest"]["l"] not in fam:
+                        pth = strip_generics(tt["callee"].get("path", ""))
+                        if pth.endswith(("Try::branch", "Result::context", "Result::with_context", "Context::context", "Context::with_context")) and tt["args"] and \
+                                tt["args"][0]["k"] in ("copy", "move") and tt["args"][0]["pl"]["l"] in fam:
+                            fam.add(tt["dest"]["l"])
+                            changed = True
+            touched = []
+            for blk in x.blocks:
+                for st in blk["stmts"]:
+                    if st["k"] == "assign":
+                        if st["rv"]["k"] in ("ref", "rawptr") and st["rv"].get("bk") in ("mut", "Mut") and st["rv"]["pl"]["l"] in fam:
+                            touched.append(loc(st["span"]))
+                        if st["pl"]["l"] in fam and st["pl"]["p"] and not (isinstance(st["pl"]["p"][0], dict) and "d" in st["pl"]["p"][0]):
+                            touched.append(loc(st["span"]))
+            k2 = b.path + ":attribute-value"
+            if touched:
+                R.bad("C19-R2", k2, "%s @%s" % (x.path, touched[0]), "the serialised settings are modified before they are stored (mutable access at %s): the attribute is "
+                      "no longer the serialisation of the settings the run used" % ", ".join(sorted(set(touched))[:3]))
+            else:
+                R.ok("C19-R2", k2, "%s @%s" % (x.path, loc(t["span"])), "the value of to_value(settings) reaches the attribute map untouched")
         # the attribute is written unconditionally: a Map::insert with the key, and no insert-if-absent anywhere in scope
         has_key = False
         inserts = 0
@@ -250,6 +285,32 @@ def r2(F, R):
             R.ok("C19-R2", b.path + ":attribute", site, "stored under attribute \"sampler_settings\" by an overwriting insert (%d inserts in scope)" % inserts)
         else:
             R.bad("C19-R2", b.path + ":attribute", site, "serialised settings are not inserted under \"sampler_settings\" (key seen: %s, overwriting inserts: %d)" % (has_key, inserts))
+    # the root group (which carries sampler_settings) is created and its metadata stored by new_trace only: a later GroupBuilder::build on it
+    # starts from empty attributes and store_metadata() then erases the settings
+    if "zarr" in C10.features(F):
+        nt_scope = set()
+        for b in F.trait_method_impls("StorageConfig", "new_trace"):
+            if "zarr" in b.path:
+                nt_scope |= set(cg.reachable([b.path])) | {b.path}
+                nt_scope |= {c.path for c in K.all_closures_of(F, b.path)}
+        ng = 0
+        for x in sorted(F.bodies.values(), key=lambda z: z.path):
+            if not x.path.startswith(("storage::zarr", "<storage::zarr")):
+                continue
+            for bb, t in x.calls():
+                pth = strip_generics(t["callee"].get("path", ""))
+                if pth.endswith(("GroupBuilder::build", "Group::store_metadata", "Group::async_store_metadata")) or \
+                        (t["callee"].get("name") in ("store_metadata", "async_store_metadata") and "group::Group" in str(t["callee"].get("self_ty") or t["callee"].get("impl_self") or "")):
+                    ng += 1
+                    top = x.path
+                    while "::{closure" in top:
+                        top = top[:top.rindex("::{closure")]
+                    key = "%s:group-metadata#%d" % (x.path, ng)
+                    if x.path in nt_scope or top in nt_scope:
+                        R.ok("C19-R2", key, "%s @%s" % (x.path, loc(t["span"])), "group metadata written while the trace is created")
+                    else:
+                        R.bad("C19-R2", key, "%s @%s" % (x.path, loc(t["span"])), "%s outside new_trace: a group rebuilt later starts with empty attributes and its store_metadata() "
+                              "erases `sampler_settings`" % pth.split("::", 2)[-1])
     if "zarr" in C10.features(F) and n < 2:
         R.missing("C19-R2", "Zarr new_trace serialising the settings (found %d, expected 2)" % n)
 
